@@ -17,7 +17,7 @@ import os, json, subprocess, time, shutil, re, glob
 ROOT = os.path.dirname(os.path.dirname(os.path.abspath(__file__)))
 REPO = os.environ.get("VX_REPO", "/repo")
 SRC = os.path.join(REPO, "entrait_macros", "src")
-BUILD = os.path.join(ROOT, "build")
+BUILD = os.path.join(ROOT, "build") if not os.environ.get("VX_SCRATCH_OUT") else os.path.join(ROOT, "build", "scratch")
 TARGET = os.path.join(BUILD, "replay-target")
 ENV = dict(os.environ, CARGO_NET_OFFLINE="true", CARGO_TARGET_DIR=TARGET)
 
